@@ -85,8 +85,11 @@ fn prog(cfg: &Cfg) {
     rt::quiesce();
     if pool == 0 {
         // with no pool threads queued work is carried by callers: kick both objects
-        w.sync(&o, "kick-o", Body::plain());
-        w.sync(&x, "kick-x", Body::plain());
+        // (twice: work scheduled from inside a job that the first kick ran lands behind that kick)
+        for round in 0..2 {
+            w.sync(&o, &format!("kick-o{}", round), Body::plain());
+            w.sync(&x, &format!("kick-x{}", round), Body::plain());
+        }
     }
     w.check_quiet();
     expect_idle(&o);
